@@ -798,3 +798,251 @@ func ruleV4d(c *Ctx) *RuleResult {
 	r.Instances = n
 	return r
 }
+
+// ---------------------------------------------------------------------------
+
+func init() {
+	registerRule("F14", "per-segment state of the MPEG-TS client: every flag that the per-sample callbacks raise once per segment (leading track seen, date-time applied) is reset by processSegment before the segment is read", ruleF14)
+}
+
+func ruleF14(c *Ctx) *RuleResult {
+	r := &RuleResult{Floor: 2, FloorWhat: "once-per-segment flags"}
+	t := c.NamedType("", "clientStreamProcessorMPEGTS")
+	ps := c.Method("", "clientStreamProcessorMPEGTS", "processSegment")
+	ir := c.Method("", "clientStreamProcessorMPEGTS", "initializeReader")
+	if t == nil || ps == nil || ir == nil {
+		r.undecided("clientStreamProcessorMPEGTS.processSegment / initializeReader not found")
+		return r
+	}
+	// flags raised inside the callbacks
+	raised := map[*types.Var]bool{}
+	for _, fn := range withAnon(ir)[1:] {
+		allInstrs(fn, func(in ssa.Instruction) {
+			if st, ok := in.(*ssa.Store); ok {
+				if b, isB := constBool(st.Val); isB && b {
+					if f, _ := fieldOfAddr(st.Addr); f != nil && namedOwner(c, f) == t {
+						raised[f] = true
+					}
+				}
+			}
+		})
+	}
+	// the read loop: the call of (*mpegts.Reader).Read
+	var read ssa.Instruction
+	allInstrs(ps, func(in ssa.Instruction) {
+		if call, ok := in.(*ssa.Call); ok && call.Call.StaticCallee() != nil && call.Call.StaticCallee().Name() == "Read" && read == nil {
+			read = in
+		}
+	})
+	if read == nil {
+		r.undecided("processSegment: call of reader.Read not found")
+		return r
+	}
+	n := 0
+	for f := range raised {
+		n++
+		key := "processSegment|reset " + f.Name()
+		ok := false
+		for _, st := range storesToField(c, ps, f) {
+			if b, isB := constBool(st.Val); isB && !b && instrDominates(st, read) {
+				ok = true
+			}
+		}
+		if ok {
+			r.ok(key, c.Pos(ps.Pos()), FuncName(ps), "the once-per-segment flag "+f.Name()+" is cleared before each segment is read", "store of false dominates reader.Read()")
+		} else {
+			r.fail(key, c.Pos(ps.Pos()), FuncName(ps), "the once-per-segment flag "+f.Name()+" is cleared before each segment is read",
+				"no reset: what the callback does once per segment (apply EXT-X-PROGRAM-DATE-TIME / notice the leading track) happens for the first segment only")
+		}
+	}
+	r.Instances = n
+	return r
+}
+
+// ---------------------------------------------------------------------------
+
+func init() {
+	registerRule("F15", "entry consistency: in the media-playlist generators the duration, URI, date-time (and for parts the independent flag) of one playlist entry are taken from one and the same segment / part object", ruleF15)
+	registerRule("T7c", "disk offsets: a new disk part starts where the previous one ends (previous offset + previous size, the size being fixed just before); the final size is the end of the last part", ruleT7c)
+}
+
+// sourceObject: the muxer object a playlist value was taken from: base of a field load, receiver of a getter call,
+// base of the URI expression.
+func sourceObject(v ssa.Value, depth int) ssa.Value {
+	if depth > 8 || v == nil {
+		return nil
+	}
+	switch x := v.(type) {
+	case *ssa.Call:
+		if x.Call.IsInvoke() {
+			return canon(x.Call.Value)
+		}
+		if f := x.Call.StaticCallee(); f != nil && f.Signature.Recv() != nil && len(x.Call.Args) > 0 {
+			return canon(x.Call.Args[0])
+		}
+	case *ssa.UnOp:
+		if _, b := fieldOfAddr(x.X); b != nil {
+			return canon(b)
+		}
+	case *ssa.FieldAddr: // &seg.startNTP
+		return canon(x.X)
+	case *ssa.Phi:
+		if b := uriBase(x, 0); b != nil && b != v {
+			return sourceObject(b, depth+1)
+		}
+	case *ssa.BinOp:
+		if b := uriBase(x, 0); b != nil {
+			return sourceObject(b, depth+1)
+		}
+	}
+	return nil
+}
+
+func ruleF15(c *Ctx) *RuleResult {
+	r := &RuleResult{Floor: 4, FloorWhat: "playlist entries built by the generators"}
+	n := 0
+	for _, name := range []string{"generateMediaPlaylistFMP4", "generateMediaPlaylistMPEGTS"} {
+		fn := c.Method("", "muxerStream", name)
+		if fn == nil {
+			r.undecided("%s not found", name)
+			continue
+		}
+		// entries: allocations of playlist.MediaSegment / playlist.MediaPart
+		cnt := 0
+		allInstrs(fn, func(in ssa.Instruction) {
+			al, ok := in.(*ssa.Alloc)
+			if !ok {
+				return
+			}
+			nt := namedOf(al.Type())
+			if nt == nil || nt.Obj().Pkg() == nil || nt.Obj().Pkg().Path() != modPath+"/pkg/playlist" {
+				return
+			}
+			if nt.Obj().Name() != "MediaSegment" && nt.Obj().Name() != "MediaPart" {
+				return
+			}
+			srcs := map[string]ssa.Value{}
+			for _, ref := range *al.Referrers() {
+				fa, ok := ref.(*ssa.FieldAddr)
+				if !ok {
+					continue
+				}
+				fname := derefStruct(al.Type()).Field(fa.Field).Name()
+				for _, rr := range *fa.Referrers() {
+					if st, ok := rr.(*ssa.Store); ok {
+						if _, isConst := st.Val.(*ssa.Const); isConst {
+							continue
+						}
+						if so := sourceObject(st.Val, 0); so != nil {
+							srcs[fname] = so
+						}
+					}
+				}
+			}
+			if len(srcs) < 2 {
+				return // gap entries etc.
+			}
+			cnt++
+			n++
+			key := fmt.Sprintf("%s|%s-entry#%d", name, nt.Obj().Name(), cnt)
+			var first ssa.Value
+			same := true
+			var parts []string
+			for _, k := range []string{"Duration", "URI", "DateTime", "Independent"} {
+				so, ok := srcs[k]
+				if !ok {
+					continue
+				}
+				parts = append(parts, k+"←"+so.Name())
+				if first == nil {
+					first = so
+				} else if so != first {
+					same = false
+				}
+			}
+			if same {
+				r.ok(key, c.Pos(al.Pos()), FuncName(fn), "all values of one playlist entry come from the same object", strings.Join(parts, ", "))
+			} else {
+				r.fail(key, c.Pos(al.Pos()), FuncName(fn), "all values of one playlist entry come from the same object", strings.Join(parts, ", ")+": the entry advertises one object's URI with another object's duration / date-time")
+			}
+		})
+	}
+	r.Instances = n
+	return r
+}
+
+func ruleT7c(c *Ctx) *RuleResult {
+	r := &RuleResult{Floor: 2, FloorWhat: "offset computations of the disk backend"}
+	np := c.Method("pkg/storage", "fileDisk", "NewPart")
+	fin := c.Method("pkg/storage", "fileDisk", "Finalize")
+	mk := c.Func("pkg/storage", "newPartDisk")
+	offF := c.Field("pkg/storage", "partDisk", "offset")
+	sizeF := c.Field("pkg/storage", "partDisk", "size")
+	finalF := c.Field("pkg/storage", "fileDisk", "finalSize")
+	if np == nil || fin == nil || mk == nil || offF == nil || sizeF == nil || finalF == nil {
+		r.undecided("fileDisk.NewPart / Finalize / newPartDisk / offset / size / finalSize not found")
+		return r
+	}
+	isEnd := func(v ssa.Value) (ssa.Value, bool) {
+		add, ok := v.(*ssa.BinOp)
+		if !ok || add.Op != token.ADD {
+			return nil, false
+		}
+		f1, b1 := loadedField(add.X)
+		f2, b2 := loadedField(add.Y)
+		if f1 == offF && f2 == sizeF && b1 == b2 {
+			return b1, true
+		}
+		return nil, false
+	}
+	// NewPart: the offset given to newPartDisk is phi(0, last.offset + last.size), and last.size was stored before
+	allInstrs(np, func(in ssa.Instruction) {
+		call, ok := in.(*ssa.Call)
+		if !ok || call.Call.StaticCallee() != mk {
+			return
+		}
+		off := call.Call.Args[1]
+		okShape := false
+		var last ssa.Value
+		if phi, ok := off.(*ssa.Phi); ok {
+			zero, end := false, false
+			for _, e := range phi.Edges {
+				if k, isK := constInt(e); isK && k == 0 {
+					zero = true
+				} else if b, isE := isEnd(e); isE {
+					end = true
+					last = b
+				}
+			}
+			okShape = zero && end && len(phi.Edges) == 2
+		}
+		sizeFixed := false
+		if last != nil {
+			for _, st := range storesToField(c, np, sizeF) {
+				if _, b := fieldOfAddr(st.Addr); b == last && instrDominates(st, call) || reachFromTo(np, st.Block(), call.Block()) && b == last {
+					sizeFixed = true
+				}
+			}
+		}
+		switch {
+		case !okShape:
+			r.fail("fileDisk.NewPart|offset", c.Pos(call.Pos()), FuncName(np), "a new part starts at 0 or at previous offset + previous size", "offset argument is "+off.String())
+		case !sizeFixed:
+			r.fail("fileDisk.NewPart|offset", c.Pos(call.Pos()), FuncName(np), "the previous part's size is fixed before it is used for the next offset", "no store to the previous part's size precedes the computation")
+		default:
+			r.ok("fileDisk.NewPart|offset", c.Pos(call.Pos()), FuncName(np), "a new part starts where the previous one ends, the previous size being fixed just before", "φ(0, last.offset + last.size)")
+		}
+	})
+	okFinal := false
+	for _, st := range storesToField(c, fin, finalF) {
+		if _, ok := isEnd(st.Val); ok {
+			okFinal = true
+		}
+	}
+	if okFinal {
+		r.ok("fileDisk.Finalize|final-size", c.Pos(fin.Pos()), FuncName(fin), "the file size is the end of its last part", "last.offset + last.size")
+	} else {
+		r.fail("fileDisk.Finalize|final-size", c.Pos(fin.Pos()), FuncName(fin), "the file size is the end of its last part", "finalSize is not last.offset + last.size")
+	}
+	return r
+}
